@@ -77,6 +77,19 @@ CHECKS = {
    note=NOTE_COMMON+" Survey shape 2x2x1 (thorough also 1x1x1, 2x1x2); |z| and sqrt as fresh variables with s^2=x; xarray's sum(skipna) modelled for the NaN datum; misfit/clean run on a duck-typed carrier of the survey.",
    technique="symbolic execution of Survey/misfit code on xarray-over-solver-terms with forking data cuts + SMT validity of equalities (LIN/NRA)",
    ref="DESIGN.md §6 C13"),
+ 'C17': dict(
+   text="The save-side and load-side transformation layers of emg3d.io (_dict_serialize/_dict_deserialize/_nonetype_to_none, "
+        "_dict_flatten/_dict_unflatten, _dict_dearray_decomp/_dict_array_comp) are executed on nested dicts (6 structures, "
+        "depth <= 3, all value kinds) whose KEYS are symbolic z3 strings, with np.savez/np.load, json and h5py as contract stubs; "
+        "per path z3 decides that every key/value of the input is found in the output. Held for all keys of length 1..4 free "
+        "of '>' and '_' (split/contains resolved by string lemmas proven by z3); a relaxed discovery run lets the solver "
+        "construct keys that break the round trip (found: '>' in npz keys; also empty nested dicts) which are replayed through "
+        "real files and listed as known findings. Field/Model to_dict/from_dict keep symbolic content; one concrete composite "
+        "(model, survey with mixed Tx/Rx, NaN, array noise, explicit std, field, nested dict) is saved/loaded in h5/npz/json and "
+        "all six conversions (objects, dtypes, order).",
+   note=NOTE_COMMON+" Back ends are stubs (identity contracts); the HDF5 layer and Survey/Simulation (de)serialisation are only covered by the concrete file round trip; key precondition (no '>' / '_') is stronger than needed for emg3d's own keys, which are run concretely.",
+   technique="symbolic execution with z3 String keys (forking dict look-ups / split / contains) + SMT validity of key equalities; solver-constructed counterexample keys replayed through real files",
+   ref="DESIGN.md §6 C17"),
  'C05': dict(
    text="Bounded symbolic execution with the grid shape as z3 integers: MGParameters._max_level, _current_sc_dir, _current_lr_dir, "
         "smoothing dispatch, multigrid recursion and _terminate run with numerics stubbed; the explorer forks on the code's "
